@@ -14,7 +14,7 @@ C. search, spec = the property: the same generated log grown x4 per step; a mark
    -> KNOWN-FINDING, outside -> VIOLATION.
 """
 import hashlib, json, os, re, shutil, subprocess, time
-from concurrent.futures import ThreadPoolExecutor
+from concurrent.futures import ThreadPoolExecutor, ProcessPoolExecutor
 import vlib
 from vlib import CACHE
 import c17_util as U
@@ -35,7 +35,7 @@ def scrape_cap():
 
 def gen_base(rng, kind, bs, nmsg):
     lay = []
-    for _ in range(nmsg):
+    for mi in range(nmsg):
         if kind == "short":
             lay.append((rng.randrange(21, 90), True))
         elif kind == "multi":
@@ -49,6 +49,13 @@ def gen_base(rng, kind, bs, nmsg):
         elif kind == "edgey":
             ln = rng.choice([bs // 2, bs // 4, bs, 32, 64]) if rng.random() < 0.7 else rng.randrange(21, 100)
             lay.append((max(ln, 21), True))
+        elif kind == "longline":      # short lines, every ~50th message has lines spanning three or more blocks
+            if rng.random() < 0.02 or mi == nmsg // 2:
+                lay.append((rng.randrange(int(2.2 * bs), int(3.5 * bs)), True))
+                for _c in range(rng.choice([0, 0, 1, 2])):
+                    lay.append((rng.randrange(int(2.1 * bs), int(3.2 * bs)), False))
+            else:
+                lay.append((rng.randrange(60, 140), True))
         elif kind == "aligned":       # every length a multiple of 32: lines end on block edges all the time
             lay.append((rng.choice([32, 64, 64, 96, 128]), True))
             if rng.random() < 0.2:
@@ -75,7 +82,8 @@ def layout_of(case):
 
 
 def case_id(case):
-    h = hashlib.sha1(json.dumps([prefix_of(case), case["base"], case["bs"], case["container"], case["mult"], case.get("avoid_edges", False)]).encode()).hexdigest()[:12]
+    h = hashlib.sha1(json.dumps([prefix_of(case), case["base"], case["bs"], case["container"], case["mult"], case.get("avoid_edges", False),
+                                 case.get("notation", "iso")]).encode()).hexdigest()[:12]
     return h
 
 
@@ -86,7 +94,7 @@ def run_bin(root, case, mode, idx, slow_us=300, plan=None):
     name = "c17f%05d" % idx
     path = os.path.join(root, name + U.EXT[case["container"]])
     lay = layout_of(case)
-    U.write_log(path, lay, case["container"])
+    U.write_log(path, lay, case["container"], case.get("notation", "iso"))
     env = dict(os.environ)
     env["TZ"] = "UTC"
     env.pop("S4_VERIF_PLAN", None)
@@ -110,6 +118,7 @@ def run_bin(root, case, mode, idx, slow_us=300, plan=None):
         s["rc"] = rc
         s["wall"] = round(time.time() - t0, 3)
         s["messages"] = len(U.messages(lay))
+        s["total_lines"] = len(lay)
     return s
 
 
@@ -149,6 +158,15 @@ def model_rows(cases, H, workdir):
             out[i] = dict(messages=t[1], lo=(t[2], t[3], t[4]), hi=(t[5], t[6], t[7]), derr_lo=t[8], derr_hi=t[9], wf=t[10],
                           span=t[11], ml=t[12])
     return out, ""
+
+
+def _sim_job(a):
+    c, H = a
+    if c.get("notation", "iso") == "yearless":
+        return None, None
+    lay = layout_of(c)
+    st = c["container"] != "plain"
+    return U.sim_cur(lay, c["bs"], st, 1), U.sim_cur(lay, c["bs"], st, H)
 
 
 def grows(vals):
@@ -204,6 +222,22 @@ def run(ctx):
     bcases.append(dict(kind="lag_family", bs=64, container="plain", base=[(70, True)] * 100, mult=2))
     bcases.append(dict(kind="edge_family", bs=64, container="gz", prefix=[], base=[(64, True)] * 50, mult=2))
     bcases.append(dict(kind="tiny", bs=64, container="plain", base=[(30, True)], mult=1))
+    # other timestamp notations (the model does not depend on the notation as long as it carries a year)
+    for i, c in enumerate(bcases):
+        if i % 4 == 1:
+            c["notation"] = "epoch_frac"
+        elif i % 4 == 3:
+            c["notation"] = "epoch"
+    for cont in containers:
+        for nt in ("epoch_frac", "epoch"):
+            bcases.append(dict(kind="safe", bs=4096, container=cont, notation=nt, base=gen_base(rng, "safe", 4096, 300), mult=2, avoid_edges=True))
+    # lines spanning three or more blocks
+    for lbs in (4096, 1024, 256):
+        bcases.append(dict(kind="longline", bs=lbs, container="plain", base=gen_base(rng, "longline", lbs, 200), mult=2, avoid_edges=True))
+    bcases.append(dict(kind="longline", bs=4096, container="gz", base=gen_base(rng, "longline", 4096, 200), mult=2, avoid_edges=True))
+    # year-less notation: nothing is dropped (finding F9c); model = C17_retain_yearless_refuted
+    ycases = [dict(kind="safe", bs=4096, container=cont, notation="yearless", base=gen_base(rng, "safe", 4096, 200), mult=2, avoid_edges=True)
+              for cont in containers]
 
     model, err = model_rows(bcases, H, os.path.join(CACHE, "cases", "C17", "B"))
     if model is None:
@@ -215,6 +249,13 @@ def run(ctx):
                                   json.dumps(dict(kind=c["kind"], bs=c["bs"], mult=c["mult"], base=c["base"][:50])))
             break
         lay = layout_of(c)
+        st = c["container"] != "plain"
+        s_lo = U.sim_cur(lay, c["bs"], st, 1)
+        s_hi = U.sim_cur(lay, c["bs"], st, H)
+        if s_lo != tuple(m["lo"]) + (m["derr_lo"],) or s_hi != tuple(m["hi"]) + (m["derr_hi"],):
+            ctx.obligation_broken("correspondence", "python transliteration c17_util.sim_cur vs Coq Model.Retain (used for the large files of run C)",
+                                  json.dumps(dict(kind=c["kind"], bs=c["bs"], container=c["container"], sim_lo=s_lo, sim_hi=s_hi, coq=m)))
+            break
         cls = U.consumer_lag_exceeds_drop_distance(lay, c["bs"], H)
         if cls != (m["derr_hi"] > 0):
             ctx.obligation_broken("correspondence", "class predicate consumer_lag_exceeds_drop_distance vs model derr at maximal lag",
@@ -253,7 +294,7 @@ def run(ctx):
         if s is None:
             ctx.obligation_broken("correspondence", "s4 --summary could not be parsed / run failed (lag-free run)", json.dumps(desc))
             continue
-        if s["syslines"] != m["messages"]:
+        if s["printed_syslines"] != m["messages"]:
             b1_rejected += 1
             continue
         if s["drop_sysline_err"] > 0:
@@ -269,7 +310,7 @@ def run(ctx):
     if b1_lagged > max(3, len(bcases) // 5):
         ctx.obligation_broken("correspondence", "could not force the lag-free schedule (drop_sysline Err > 0 in %d of %d runs)" % (b1_lagged, len(bcases)), "")
     for c, m, (s, p) in zip(bcases, model, r2):
-        if s is None or s["syslines"] != m["messages"]:
+        if s is None or s["printed_syslines"] != m["messages"]:
             continue
         b2_cmp += 1
         got = tuple(s[k] for k in MARKS)
@@ -281,6 +322,25 @@ def run(ctx):
                                                       impl=got, model_lo=m["lo"], model_hi=m["hi"], drop_sysline_err=s["drop_sysline_err"])))
         elif got != tuple(m["lo"]):
             b2_strict_inside += 1
+
+    # B3: year-less notation — every store holds the whole file (C17_retain_yearless_refuted)
+    def b3(ic):
+        i, c = ic
+        return run_bin(root, c, "free", 350000 + i)
+
+    with ThreadPoolExecutor(max_workers=vlib.NCPU) as ex:
+        r3 = list(ex.map(b3, enumerate(ycases)))
+    b3_cmp = 0
+    for c, s3 in zip(ycases, r3):
+        if s3 is None or s3["printed_syslines"] != s3["messages"]:
+            ctx.obligation_broken("correspondence", "year-less log not processed", json.dumps(dict(container=c["container"], summary=s3)))
+            continue
+        b3_cmp += 1
+        got = (s3["blocks_high"], s3["lines_high"], s3["syslines_high"])
+        want = (s3["blocks"], s3["total_lines"], s3["messages"])
+        if got != want:
+            ctx.obligation_broken("correspondence", "year-less log: marks vs 'everything is kept' (Model.Retain find_all)",
+                                  json.dumps(dict(container=c["container"], bs=c["bs"], impl=got, model=want)))
 
     # ---------------------------------------------------------------- C: growth search
     mults = [1, 4, 16, 64] if quick else [1, 4, 16, 64, 256]
@@ -308,6 +368,16 @@ def run(ctx):
                             base=gen_base(rng, "aligned", abs_, int(max(24, min(6 * abs_ / 75, 2500))))))
     configs.append(dict(kind="lag_family", bs=64, container="plain", base=[(70, True)] * 40))
 
+    # timestamp notations other than ISO, in every container (block large relative to the lines, edges avoided)
+    for nt in ("epoch_frac", "epoch", "yearless"):
+        for cont in containers:
+            nbs = rng.choice([4096, 8192])
+            configs.append(dict(kind="safe", bs=nbs, container=cont, notation=nt, avoid_edges=True,
+                                base=gen_base(rng, "safe", nbs, int(6 * nbs / 120))))
+    # plain (and one streamed) files whose lines span three or more blocks, edges avoided
+    for lbs, cont in ((4096, "plain"), (4096, "plain"), (1024, "plain"), (256, "plain"), (4096, "gz")) + (() if quick else ((16384, "plain"), (512, "plain"), (4096, "bz2"))):
+        configs.append(dict(kind="longline", bs=lbs, container=cont, avoid_edges=True, base=gen_base(rng, "longline", lbs, 150)))
+
     jobs = []
     for ci, cf in enumerate(configs):
         for mu in mults:
@@ -326,46 +396,73 @@ def run(ctx):
     for k, r in zip(jobs_sorted, res_sorted):
         cres[k] = r
 
+    # the model's prediction (current policy; python transliteration cross-checked against Coq in B) for every C run
+    sim_jobs = [(jobs[k][2], H) for k in range(len(jobs))]
+    with ProcessPoolExecutor(max_workers=vlib.NCPU) as ex:
+        sims_all = list(ex.map(_sim_job, sim_jobs, chunksize=4))
+
     c_growing = c_flat = c_rejected = 0
     c_safe_flat = c_safe_total = 0
+    c_interval_cmp = c_interval_bad = 0
     domain_hist = {}
     growth_samples = []
     for ci, cf in enumerate(configs):
-        rs = [cres[k] for k, j in enumerate(jobs) if j[0] == ci]
+        ks = [k for k, j in enumerate(jobs) if j[0] == ci]
+        rs = [cres[k] for k in ks]
+        sims = [sims_all[k] for k in ks]
         big = dict(cf)
         big["mult"] = mults[-1]
         lay = layout_of(big)
-        if any(r is None for r in rs) or any(r["syslines"] != r["messages"] for r in rs):
+        nt = cf.get("notation", "iso")
+        desc0 = dict(kind=cf["kind"], bs=cf["bs"], container=cf["container"], notation=nt, avoid_edges=cf.get("avoid_edges", False))
+        if any(r is None for r in rs) or any(r["printed_syslines"] != r["messages"] for r in rs):
             if any(r is None or r["rc"] not in (0,) for r in rs):
-                ctx.failure(dict(kind=cf["kind"], bs=cf["bs"], container=cf["container"], base=cf["base"][:200], mults=mults),
-                            "a run that ends with a summary", "run failed / hang", [])
+                ctx.failure(dict(desc0, base=cf["base"][:200], mults=mults), "a run that ends with a summary", "run failed / hang", [])
             c_rejected += 1
             continue
+        yearless = nt == "yearless"
         in_lag = U.consumer_lag_exceeds_drop_distance(lay, cf["bs"], H)
         in_edge = U.line_ends_on_block_edge(lay, cf["bs"], cf["container"])
-        dom = ("lag" if in_lag else "") + ("edge" if in_edge else "") or "outside_known_classes"
+        dom = "yearless" if yearless else (("lag" if in_lag else "") + ("edge" if in_edge else "") or "outside_known_classes")
         domain_hist[dom] = domain_hist.get(dom, 0) + 1
         if dom == "outside_known_classes":
             c_safe_total += 1
+        if not yearless:
+            # every run must lie inside [model no lag, model lag cap+2]
+            for mu, r, (lo, hi) in zip(mults, rs, sims):
+                c_interval_cmp += 1
+                got = tuple(r[k] for k in MARKS)
+                if not all(a <= g <= b for a, g, b in zip(lo[:3], got, hi[:3])):
+                    c_interval_bad += 1
+                    if c_interval_bad <= 3:
+                        ctx.obligation_broken("correspondence", "--summary marks (run C) outside [model no lag, model lag cap+2]",
+                                              json.dumps(dict(desc0, mult=mu, impl=got, model_lo=lo[:3], model_hi=hi[:3])))
         anyg = False
-        for mk in MARKS:
+        for mi, mk in enumerate(MARKS):
             vals = [r[mk] for r in rs]
             if grows(vals):
                 anyg = True
                 classes = []
-                if mk == "lines_high" and in_lag:
-                    classes.append("consumer_lag_exceeds_drop_distance")
-                if mk == "blocks_high" and cf["container"] == "plain":
-                    if in_edge:
-                        classes.append("line_ends_on_block_edge")
-                    if in_lag:
-                        classes.append("consumer_lag_exceeds_drop_distance")
-                case = dict(kind=cf["kind"], bs=cf["bs"], container=cf["container"], avoid_edges=cf.get("avoid_edges", False),
-                            mults=mults, mark=mk, base=cf["base"], prefix=prefix_of(cf),
+                if yearless:
+                    classes.append("yearless_notation")
+                else:
+                    # growth is attributed to a recorded finding only as far as the model of the current
+                    # policy (which contains both findings) predicts it, at maximal consumer lag
+                    explained = all(r[mk] <= hi[mi] for r, (lo, hi) in zip(rs, sims))
+                    if explained:
+                        if mk == "lines_high" and in_lag:
+                            classes.append("consumer_lag_exceeds_drop_distance")
+                        if mk == "blocks_high" and cf["container"] == "plain":
+                            if in_edge:
+                                classes.append("line_ends_on_block_edge")
+                            if in_lag:
+                                classes.append("consumer_lag_exceeds_drop_distance")
+                case = dict(desc0, mults=mults, mark=mk, base=cf["base"], prefix=prefix_of(cf),
+                            model_maxlag=[hi[mi] for (lo, hi) in sims] if not yearless else None,
                             drop_sysline_err=[r["drop_sysline_err"] for r in rs], sizes_messages=[r["messages"] for r in rs])
                 ctx.failure(case, "%s independent of the file size" % mk, "grows: %s at sizes x%s" % (vals, mults), classes)
-                if len(growth_samples) < 6:
-                    growth_samples.append(dict(kind=cf["kind"], bs=cf["bs"], container=cf["container"], mark=mk, values=vals, classes=classes))
+                if len(growth_samples) < 8:
+                    growth_samples.append(dict(desc0, mark=mk, values=vals, classes=classes))
         if anyg:
             c_growing += 1
         else:
@@ -374,7 +471,7 @@ def run(ctx):
                 c_safe_flat += 1
 
     # ---------------------------------------------------------------- evidence
-    allruns = [r for r in r1 if r] + [r for r, _ in r2 if r] + [r for r in cres if r]
+    allruns = [r for r in r1 if r] + [r for r, _ in r2 if r] + [r for r in r3 if r] + [r for r in cres if r]
     distinct = len(set((case_id(c), "lf") for c in bcases)) + len(set((case_id(c), "free") for c in bcases)) + \
         len(set(case_id(j[2]) for j in jobs))
     hist_c = {}
@@ -399,7 +496,9 @@ def run(ctx):
         model_span_max=max(spans) if spans else None,
         C_configs=len(configs), C_sizes=mults, C_growing=c_growing, C_flat=c_flat, C_rejected=c_rejected,
         C_domain_histogram=domain_hist, C_outside_known_classes_flat="%d of %d" % (c_safe_flat, c_safe_total),
-        C_growth_samples=growth_samples,
+        C_growth_samples=growth_samples, C_interval_compared=c_interval_cmp, C_outside_interval=c_interval_bad,
+        B3_yearless_compared=b3_cmp,
+        notation_histogram=dict((nt, sum(1 for c in bcases + ycases + [j[2] for j in jobs] if c.get("notation", "iso") == nt)) for nt in U.NOTATIONS),
         container_kind_histogram=hist_c, blocksize_histogram=hist_bs,
         largest_file_messages=max([r["messages"] for r in allruns] or [0]),
         largest_file_blocks=max([r["blocks"] for r in allruns] or [0]))
@@ -417,6 +516,8 @@ def replay(ctx, path):
     r = json.load(open(path))
     ok, log = vlib.build_s4()
     root = vlib.scratch_dir("C17")
+    H = (scrape_cap() or 5) + 2
+    known = set(k["predicate"] for k in ctx.known)
     rc = 0
     for f in r.get("failures", []):
         c = f["case"]
@@ -424,14 +525,33 @@ def replay(ctx, path):
             print("replay: case without a growth record:", json.dumps(c)[:300])
             continue
         base = [tuple(x) for x in c["base"]]
-        vals = []
+        nt = c.get("notation", "iso")
+        mk = c["mark"]
+        mi = MARKS.index(mk)
+        vals, explained = [], True
         for k, mu in enumerate(c["mults"]):
-            s = run_bin(root, dict(bs=c["bs"], container=c["container"], base=base, mult=mu, avoid_edges=c.get("avoid_edges", False),
-                                   prefix=c.get("prefix", PREFIX)), "free", 900000 + k)
-            vals.append(s[c["mark"]] if s else None)
+            cc = dict(bs=c["bs"], container=c["container"], base=base, mult=mu, avoid_edges=c.get("avoid_edges", False),
+                      prefix=c.get("prefix", PREFIX), notation=nt)
+            s = run_bin(root, cc, "free", 900000 + k)
+            vals.append(s[mk] if s else None)
+            if s and nt != "yearless":
+                hi = U.sim_cur(layout_of(cc), c["bs"], c["container"] != "plain", H)
+                explained = explained and s[mk] <= hi[mi]
         g = None not in vals and grows(vals)
-        print("replay %s bs=%d %s mark=%s sizes x%s -> %s  grows=%s (recorded: %s)" % (c["kind"], c["bs"], c["container"], c["mark"], c["mults"], vals, g, f["got"]))
-        if g:
+        lay = layout_of(dict(bs=c["bs"], container=c["container"], base=base, mult=c["mults"][-1], avoid_edges=c.get("avoid_edges", False),
+                             prefix=c.get("prefix", PREFIX)))
+        classes = []
+        if nt == "yearless":
+            classes.append("yearless_notation")
+        elif explained:
+            if U.consumer_lag_exceeds_drop_distance(lay, c["bs"], H) and (mk == "lines_high" or (mk == "blocks_high" and c["container"] == "plain")):
+                classes.append("consumer_lag_exceeds_drop_distance")
+            if U.line_ends_on_block_edge(lay, c["bs"], c["container"]) and mk == "blocks_high":
+                classes.append("line_ends_on_block_edge")
+        covered = bool(set(classes) & known)
+        print("replay %s bs=%d %s %s mark=%s sizes x%s -> %s  grows=%s within-model-of-known-findings=%s classes=%s (recorded: %s)"
+              % (c["kind"], c["bs"], c["container"], nt, mk, c["mults"], vals, g, explained, classes, f["got"]))
+        if g and not covered:
             print("VIOLATION property=C17 replay=%s" % path)
             rc = 1
     for b in r.get("no_longer_checks", []):
